@@ -59,10 +59,12 @@ def main():
         text = open(os.path.join(dst, 'demo.py')).read()
         os.makedirs(os.path.join(d, '_demos'))
         demo1, demo0 = os.path.join(d, '_demos', 'demo_with.py'), os.path.join(d, '_demos', 'demo_without.py')
+        d0 = os.path.join(d, '_clean')          # an unmodified copy of the current tree: the demo may insist on cwd == tree root
+        shutil.copytree('/repo/elfi', os.path.join(d0, 'elfi'), ignore=shutil.ignore_patterns('__pycache__', '*.pyc', 'bdm'))
         open(demo1, 'w').write(re.sub(r'/tmp/seed-c\d\d', d, text))
-        open(demo0, 'w').write(re.sub(r'/tmp/seed-c\d\d', '/repo', text))
+        open(demo0, 'w').write(re.sub(r'/tmp/seed-c\d\d', d0, text))
         r1 = sh(['/venv/bin/python', demo1], env=env, cwd=d, timeout=900)
-        r0 = sh(['/venv/bin/python', demo0], env=dict(os.environ, PYTHONPATH='/repo', MPLBACKEND='Agg'), cwd='/var/tmp', timeout=900)
+        r0 = sh(['/venv/bin/python', demo0], env=dict(os.environ, PYTHONPATH=d0, MPLBACKEND='Agg'), cwd=d0, timeout=900)
         res['demo'] = dict(with_change_exit=r1.returncode, without_change_exit=r0.returncode, with_change_tail=(r1.stdout + r1.stderr)[-300:], seconds=round(time.time() - t, 1))
         res['confirmed'] = (r1.returncode != 0 and r0.returncode == 0)
         res['checks'] = {}
